@@ -22,7 +22,7 @@
 (***************************************************************************)
 EXTENDS Integers, Sequences, FiniteSets
 
-CONSTANTS MaxOps, NBoards, WalkInclusive, CastleResets
+CONSTANTS MaxOps, NBoards, WalkInclusive, CastleResets, NPLimit
 
 \* ---- the abstract game (same as MCBoard) ----
 APos(place, turn, rights) == <<place, turn, rights>>
@@ -35,7 +35,7 @@ AApply(p, m) == CASE m = "a" -> APos((p[1] + 1) % 3, 1 - p[2], p[3])
                   [] m = "c" -> APos(p[1], 1 - p[2], FALSE)
                   [] m = "m" -> APos(4, 1 - p[2], p[3])
                   [] m = "s" -> APos(3, 1 - p[2], p[3])
-Limit == 3   \* the no-progress limit of the abstract game (100 in chess)
+Limit == NPLimit   \* the no-progress limit of the abstract game (100 in chess)
 
 B == INSTANCE Board WITH
        GLegal <- ALegal, GApply <- AApply,
@@ -62,7 +62,7 @@ EmptyReps == [p \in {} |-> 0]
 Count(reps, p) == IF p \in DOMAIN reps THEN reps[p] ELSE 0
 Bump(reps, p, d) == [q \in (DOMAIN reps) \cup {p} |-> Count(reps, q) + (IF q = p THEN d ELSE 0)]
 
-Init == /\ \E np \in {0, 2} :
+Init == /\ \E np \in {0, NPLimit - 1} :
              /\ heap = <<Node(Start, np, 0)>>
              /\ spec = [i \in Ids |-> B!NewBoard(Start, np, 1)]
         /\ bd = [i \in Ids |-> [cur |-> 1, reps |-> Bump(EmptyReps, Start, 1), castled |-> <<FALSE, FALSE>>,
